@@ -119,8 +119,10 @@ RING_ASSUMPTIONS = [
     "any thread held at a mark (under-approximation of the tested schedules, not of the theorems)",
     "liveness (C15) is proved as invariants (no leaked mutex, no lost wake-up, straight-line Close, enabledness at "
     "quiescence); weak fairness of the Go scheduler is a hypothesis and wall-clock 'promptly' is not modelled",
-    "ReadFrom / WriteTo are loops over waitForWriteSpace/WriteCommit and ReadPeek/ReadCommit; they are exercised free-running "
-    "(pipe lines) against the stream, their loops are not separate program counters of the model",
+    "ReadFrom is modelled whole (loop head, waitForWriteSpace(1), load of the consumer cursor, the reader filling the free "
+    "contiguous slice, WriteCommit, deferred Close; the io.Reader is a script of byte counts) and scheduled at its marks like "
+    "every other call; WriteTo (a loop over ReadPeek/ReadCommit with no shared access of its own) is exercised free-running "
+    "only (pipe lines, prefix check against the stream)",
 ]
 
 RING_TRUSTED = COMMON_TRUSTED + [
